@@ -7,5 +7,7 @@ CONSTANTS
   RelLens = TRUE
   MaxWrites = 2
   WriterFollowsOwnSCS = FALSE
+  HsOrder = "serial"
+  HsReadExact = TRUE
 INVARIANTS NoDesync
 CHECK_DEADLOCK FALSE
